@@ -35,3 +35,120 @@ Theorem C16_run_is_next_iterated : forall s ts e,
                end.
 Proof. exact run_next_lemma. Qed.
 Print Assumptions C16_run_is_next_iterated.
+
+(* ------------------------------------------------------------------------------------------------
+   Input iterators (cli/inputs.go) and input / inputs (compiler.go funcInput, builtin.jq inputs) *)
+From Verif Require Import c16.Inputs c16.InputsSpec c16.InputsProofs c16.Args c16.ArgsProofs.
+
+(* all_outs m stdin args is, by definition, the concatenation in argument order of what each input
+   contributes (values, then OErr if a malformed document follows them; OErr for a file that cannot be
+   opened; the lines for -R; the whole text for -Rs; the events for --stream).
+   With -n, k successive calls of `input` on the iterator selected by createInputIter return exactly
+   the first k of these outputs, each once, and then the error "break" for ever. *)
+Theorem C16_inputs_order : forall m stdin args k,
+  input_calls top top_next k (create_top m stdin args) = calls_spec k (all_outs m stdin args).
+Proof. exact inputs_order_lemma. Qed.
+Print Assumptions C16_inputs_order.
+
+(* jsonInputIter: every complete value, then one error if a malformed document follows, then end *)
+Theorem C16_json_iter : iter_ok jiter json_next json_abs.
+Proof. exact json_ok. Qed.
+Print Assumptions C16_json_iter.
+
+(* filesInputIter over any list iterator: file by file, in argument order *)
+Theorem C16_files_iter : forall (D I : Type) (mkI : D -> I) inext abs, iter_ok I inext abs ->
+  iter_ok _ (files_next D I mkI inext) (files_abs D I mkI abs).
+Proof. exact files_ok. Qed.
+Print Assumptions C16_files_iter.
+
+(* the main loop with the query `.` prints every output of the selected iterator in order *)
+Theorem C16_plain_mode : forall m stdin args fuel,
+  (List.length (all_outs m stdin args) < fuel)%nat ->
+  process top top_next fuel (q_id top) (create_top m stdin args) = Some (all_outs m stdin args).
+Proof. exact plain_mode_lemma. Qed.
+Print Assumptions C16_plain_mode.
+
+(* `-s .` prints what `-n [inputs]` prints *)
+Theorem C16_slurp_eq_inputs : forall m stdin args fuel,
+  (List.length (all_outs m stdin args) < fuel)%nat -> ~ In OPanic (all_outs m stdin args) ->
+  process (top * bool) (slurp_it top top_next fuel) 2 (q_id _) (create_top m stdin args, false)
+  = Some (process_null top (q_inputs top top_next fuel) (create_top m stdin args)).
+Proof. exact slurp_mode_lemma. Qed.
+Print Assumptions C16_slurp_eq_inputs.
+
+(* and that is the array of all values, or the first error *)
+Theorem C16_slurp_value : forall m stdin args fuel,
+  (List.length (all_outs m stdin args) < fuel)%nat ->
+  exists t', slurp_loop top top_next fuel (create_top m stdin args) []
+             = Some (slurp_spec (all_outs m stdin args) [], t').
+Proof. exact slurp_value_lemma. Qed.
+Print Assumptions C16_slurp_value.
+
+(* -R: rawInputIter delivers the lines of the text … *)
+Theorem C16_raw_iter : iter_ok riter raw_next raw_abs.
+Proof. exact raw_ok. Qed.
+Print Assumptions C16_raw_iter.
+
+(* … where no line contains \n (\r is kept) and terminating every line with \n gives back the text,
+   plus one \n when the non-empty text does not end with one (the last line without newline counts) *)
+Theorem C16_raw_lines_law : forall t,
+  Forall (Forall (fun c => (c =? 10)%N = false)) (lines t)
+  /\ concat (map (fun l => l ++ [10%N]) (lines t)) = terminate t.
+Proof. exact raw_lines_law_lemma. Qed.
+Print Assumptions C16_raw_lines_law.
+
+(* -Rs: one string, the whole text (of all file operands, concatenated) *)
+Theorem C16_raw_slurp_files : forall stdin a args fuel,
+  (List.length (a :: args) < fuel)%nat ->
+  exists t', slurpraw_loop top top_next fuel (create_top (mkmode true false true) stdin (a :: args)) []
+             = Some (match concat_texts (a :: args) with Some t => OVal (vstr t) | None => OErr end, t').
+Proof. exact raw_slurp_lemma. Qed.
+Print Assumptions C16_raw_slurp_files.
+
+Theorem C16_raw_slurp_stdin : forall stdin fuel, (1 < fuel)%nat ->
+  exists t', slurpraw_loop top top_next fuel (create_top (mkmode true false true) stdin []) []
+             = Some (OVal (vstr (ftext stdin)), t').
+Proof. exact raw_slurp_stdin_lemma. Qed.
+Print Assumptions C16_raw_slurp_stdin.
+
+(* ------------------------------------------------------------------------------------------------
+   Named and positional arguments (cli/flags.go parseFlags, cli/cli.go runInternal) *)
+
+(* every command line that has a reading (items) is accepted by parseFlags *)
+Theorem C16_args_parses : forall ws its, items false ws = Some its ->
+  exists rest named pos bools, parse_args ws = AOk rest named pos bools.
+Proof. exact args_parses_lemma. Qed.
+Print Assumptions C16_args_parses.
+
+(* --arg/--argjson/--slurpfile/--rawfile: no name is bound twice (so Go's map iteration order cannot
+   matter) and $name / $ARGS.named.name is the FIRST binding of the name on the command line *)
+Theorem C16_args_binding : forall ws its rest named pos bools,
+  items false ws = Some its -> parse_args ws = AOk rest named pos bools ->
+  NoDup (map fst named) /\ forall n, lookup n named = first_binding n its.
+Proof. exact args_named_lemma. Qed.
+Print Assumptions C16_args_binding.
+
+(* --args/--jsonargs: $ARGS.positional lists the words after the query in order, each read in the mode
+   of the nearest preceding --args/--jsonargs (switching mid-list included); the remaining plain words
+   are the query and the file operands *)
+Theorem C16_args_positional : forall ws its rest named pos bools,
+  items false ws = Some its -> parse_args ws = AOk rest named pos bools ->
+  pos = map Some (positional_spec false None its) /\ rest = rest_spec false None its.
+Proof. exact args_positional_lemma. Qed.
+Print Assumptions C16_args_positional.
+
+(* non-vacuity: the hypotheses are met by concrete inputs on which the interesting paths are taken *)
+Open Scope string_scope.
+Example C16_nonvacuous :
+  let w := common.Sexp.codes in
+  (* [[],{"a":[1,{}]}] : nested empty containers, sibling after a nested close *)
+  let d := VArr (VCons (VArr VNil) (VCons (VObj (MCons (w "a") (VArr (VCons (VS (SNum (w "1"))) (VCons (VObj MNil) VNil))) MNil)) VNil)) in
+  List.length (tostream_doc_order d) = 6%nat
+  /\ stream_events (firstn 5 (tokens d)) EndErr = trace_of (firstn 2 (tostream_doc_order d)) Err
+  /\ items false [w "--arg"; w "a"; w "1"; w "$ARGS"; w "--args"; w "x"; w "--argjson"; w "a"; w "2"; w "--jsonargs"; w "3"; w "--args"; w "y"]
+     = Some [IMap MArg (w "a") (w "1"); IPlain (w "$ARGS"); IPos PArgs; IPlain (w "x"); IMap MArgJSON (w "a") (w "2");
+             IPos PJSONArgs; IPlain (w "3"); IPos PArgs; IPlain (w "y")]
+  /\ parse_args [w "--arg"; w "a"; w "1"; w "$ARGS"; w "--args"; w "x"; w "--argjson"; w "a"; w "2"; w "--jsonargs"; w "3"; w "--args"; w "y"]
+     = AOk [w "$ARGS"] [(w "a", AStr (w "1"))] [Some (AStr (w "x")); Some (AJson (w "3")); Some (AStr (w "y"))] []
+  /\ lines (w "a" ++ [13; 10; 10] ++ w "b")%N = [w "a" ++ [13%N]; []; w "b"].
+Proof. vm_compute. repeat split. Qed.
